@@ -17,10 +17,10 @@ CLAIMED = {
     tech="contract-based deductive verification: 2-state inductive invariant + postconditions, VCs from the real AST, z3"),
 }
 
-GEO_NOTE = "A1 real arithmetic (floats = reals, float constants = the simple rational they round from), A2, A3 torch model, A8 row-wise shape functions, A9. Under contract so far: Point, Interval(+boundaries), Circle, Sphere, Parallelogram, Triangle and their boundaries, constant and parameter-dependent shapes, with and without parameter rows. ShapelyPolygon / TrimeshPolyhedron (C code of shapely/trimesh) are not under contract. Termination of rejection loops is not provable in this family."
+GEO_NOTE = "A1 real arithmetic (floats = reals, float constants = the simple rational they round from), A2, A3 torch model, A8 row-wise shape functions, A9. Under contract: Point, Interval(+boundaries), Circle, Sphere, Parallelogram, Triangle and their boundaries (constant and parameter-dependent shapes, with and without parameter rows), Boolean operations / products / motions over ABSTRACT operands (uninterpreted set predicates, so any nesting); engine lemma L-pigeonhole machine-checked in Lean (lemmas/). ShapelyPolygon / TrimeshPolyhedron (C code of shapely/trimesh) are not under contract. Termination of rejection loops is not provable in this family."
 for _p, _t in [
- ("C01", "Postcondition 'every returned row lies in the set denoted at its own parameter row' (oracles from the mathematical set definitions) on sample_random_uniform / sample_grid of every primitive and its boundary, for all n, K, positions, sizes, orientations and every outcome of the random generator; helper contracts (perimeter walk) proved separately and used modularly."),
- ("C02", "Shape/provenance postconditions on the domain-level samplers: exactly K'*n rows, grouped by parameter row (row-major structured axis), dim columns, the domain's space."),
+ ("C01", "Postcondition 'every returned row lies in the set denoted at its own parameter row' (oracles from the mathematical set definitions) on sample_random_uniform / sample_grid of every primitive and its boundary, of unions, cuts, intersections and their boundaries (rejection, search and accumulate loops of sampler_helper under inductive loop contracts; operands abstract = any nesting), of independent and dependent products (ratio-of-uniforms loop), of translated/rotated domains and of the RandomUniform/Grid samplers, for all n, K, positions, sizes, orientations and every outcome of the random generator; helper contracts (perimeter walk, _random_points_inside, _random_points_boundary, recursive per-row calls) proved separately and used modularly. Termination of the probabilistic loops is not proved."),
+ ("C02", "Shape/provenance postconditions on the domain-level sampling methods (primitives, Boolean operations and their boundaries incl. the n = 1 and grid helpers, products incl. dependent ones, motions) and on the point samplers and their algebra (product, sum, append, data, static length): exactly K'*n rows, grouped by parameter row (row-major structured axis), dim columns, the domain's space, parameter rows carried unchanged."),
  ("C05", "_contains of every primitive: one truth value per row; interior membership <=> the closed set (each point against its own parameter row); boundary membership accepts exact boundary points and rejects beyond the isclose tolerance band."),
  ("C10", "volume() = analytic measure (pi symbolic) per parameter row, positive for both orientations, boundary measures; density sampling returns exactly ceil(density*measure) rows (at most 2*ceil for the rejection-based triangle)."),
  ("C18", "bounding_box(): flat [min,max] per axis, encloses every point of every supplied parameter row (min/max over rows by their defining axioms), tight for one row."),
